@@ -3,8 +3,9 @@
    canonical writer orders atoms by) is a function of the structure alone, for ANY hash function h (no assumption about
    collisions): renumbering, insertion order of atoms / adjacency rows / neighbours.  Equality and hash coherence of
    Smiles.__eq__/__hash__ over an opaque canonical string.  About the writer model (Model.Writer, `_smiles`) only the first
-   steps towards `smiles_invariant_discrete` are theorems (section "writer" below: with injective weights the start atom
-   and the order of the children of every DFS node are decided by the weights alone and are mapped by a renumbering); the
+   steps towards `smiles_invariant_discrete` are theorems (sections "writer" ... below: with injective weights the start atom
+   and the order of the children of every DFS node are decided by the weights alone and are mapped by a renumbering; the
+   BFS labels, the DFS and one whole component of `traverse` are equivariant under remap()-like renumberings); the
    full statement is the Prop Proofs.WriterInvProofs.smiles_invariant_discrete_goal and is NOT proved.  The stereo
    refinement (`_chiral_morgan`) is not covered by theorems: search in harness/checks/C01.py. *)
 From Coq Require Import ZArith List Bool Permutation Sorting.Sorted String.
@@ -177,3 +178,63 @@ Theorem C01_writer_keys_example :
   sort_by (key_child exw_w' (fun n => n) default_opts (map exw_s exw_all) []) [12; 16; 14] = [16; 14; 12].
 Proof. exact writer_keys_example. Qed.
 Print Assumptions C01_writer_keys_example.
+
+(* ---- Morgan model + writer keys: discrete classes make the first choices of the canonical traversal structure-determined ---- *)
+(* the molecule renumbered by s and re-inserted in any other order (g'); l = the ranks the Morgan model computes for g *)
+Theorem C01_canonical_start_structure_only :
+  forall (h : list Z -> Z) (ring ring' : Z -> bool) (g g' : mol) (s : Z -> Z) (l : labels),
+  wf_mol g = true -> inj_on (ids g) s -> (forall n, In n (ids g) -> ring' (s n) = ring n) -> mol_perm (ren_mol s g) g' ->
+  atoms_order h ring g = Ok l -> NoDup (map snd l) ->
+  atoms_order h ring' g' = Ok (ren_labels s l) /\
+  forall (tb tb' : Z -> Z) (o : opts),
+    min_by (key_start (lbl (ren_labels s l)) tb' o (ids g')) (ids g') = option_map s (min_by (key_start (lbl l) tb o (ids g)) (ids g)).
+Proof. exact canonical_start_full. Qed.
+Print Assumptions C01_canonical_start_structure_only.
+
+Theorem C01_canonical_children_structure_only :
+  forall (h : list Z -> Z) (ring : Z -> bool) (g g' : mol) (s : Z -> Z) (l : labels),
+  wf_mol g = true -> inj_on (ids g) s -> mol_perm (ren_mol s g) g' -> atoms_order h ring g = Ok l -> NoDup (map snd l) ->
+  forall (tb tb' : Z -> Z) (o : opts) (seen seen' : list (Z * Z)) (n : Z),
+  In n (ids g) -> (forall x, In x (ids g) -> zget seen' (s x) = zget seen x) ->
+  sort_by (key_child (lbl (ren_labels s l)) tb' o (ids g') seen') (nbr_ids g' (s n)) =
+  map s (sort_by (key_child (lbl l) tb o (ids g) seen) (nbr_ids g n)).
+Proof. exact canonical_children_structure_only. Qed.
+Print Assumptions C01_canonical_children_structure_only.
+
+(* ---- renumbering that keeps the insertion orders (remap()), any tie-break priorities, injective weights ---- *)
+(* the BFS labels *)
+Theorem C01_smiles_invariant_discrete_partial_bfs : forall (s : Z -> Z), (forall x y, s x = s y -> x = y) ->
+  forall (g : mol) (fuel : nat) (queue seen : list (Z * Z)),
+  bfs (ren_mol s g) fuel (ren_labels s queue) (ren_labels s seen) = ren_labels s (bfs g fuel queue seen).
+Proof. exact bfs_ren. Qed.
+Print Assumptions C01_smiles_invariant_discrete_partial_bfs.
+
+(* the `while stack:` loop of the DFS: spanning tree, predecessor table, ring-closure pairs and their numbers *)
+Theorem C01_smiles_invariant_discrete_partial_dfs : forall (s : Z -> Z), (forall x y, s x = s y -> x = y) ->
+  forall (g : mol) (all : list Z) (key key' : Z -> list Z), (forall n, incl (nbr_ids g n) all) ->
+  (forall l, incl l all -> sort_by key' (map s l) = map s (sort_by key l)) ->
+  forall (fuel : nat) (st : dfs_st),
+  iter_opt fuel (dfs_step (ren_mol s g) key') (ren_dfs s st) = option_map (ren_dfs s) (iter_opt fuel (dfs_step g key) st).
+Proof. exact dfs_ren. Qed.
+Print Assumptions C01_smiles_invariant_discrete_partial_dfs.
+
+(* one component: start atom, BFS labels, DFS.  The atom set of the renumbered side may be listed in any order *)
+Theorem C01_smiles_invariant_discrete_partial_traverse : forall (g : mol) (s w w' tb tb' : Z -> Z) (o : opts),
+  wf_mol g = true -> (forall x y, s x = s y -> x = y) -> inj_on (ids g) w -> (forall n, In n (ids g) -> w' (s n) = w n) ->
+  forall st st' : wstate, incl (ws_atoms st) (ids g) -> Permutation (map s (ws_atoms st)) (ws_atoms st') ->
+  ws_seen st' = ren_labels s (ws_seen st) -> ws_cycle st' = ws_cycle st ->
+  traverse (ren_mol s g) w' tb' o (map s (ids g)) st' = ren_tres s (traverse g w tb o (ids g) st).
+Proof. exact traverse_ren. Qed.
+Print Assumptions C01_smiles_invariant_discrete_partial_traverse.
+
+(* non-vacuity: ethanol renumbered n -> 10 - n with the ranks of the Morgan model (CPython hash) as weights *)
+Theorem C01_traverse_example :
+  wf_mol ex_g = true /\ (forall x y, ex_s x = ex_s y -> x = y) /\ inj_on (ids ex_g) (lbl exw_l) /\
+  (forall n, In n (ids ex_g) -> lbl (ren_labels ex_s exw_l) (ex_s n) = lbl exw_l n) /\
+  atoms_order hash_ztuple ex_ring ex_g = Ok exw_l /\
+  traverse ex_g (lbl exw_l) (fun n => n) default_opts (ids ex_g) exw_st =
+    Ok (mkTr 1 [(1, 0); (2, 1); (3, 2)] (mkDfs [] [(1, []); (2, [1]); (3, [2])] [] [(1, [2]); (2, [3])] [] 0)) /\
+  traverse (ren_mol ex_s ex_g) (lbl (ren_labels ex_s exw_l)) (fun n => - n) default_opts (map ex_s (ids ex_g)) exw_st' =
+    Ok (mkTr 9 [(9, 0); (8, 1); (7, 2)] (mkDfs [] [(9, []); (8, [9]); (7, [8])] [] [(9, [8]); (8, [7])] [] 0)).
+Proof. exact traverse_example. Qed.
+Print Assumptions C01_traverse_example.
